@@ -4,9 +4,11 @@ import (
 	"errors"
 	"fmt"
 	"math/rand"
+	"net/http"
 	"os"
 	"sort"
 	"strings"
+	"sync"
 	"time"
 
 	"github.com/bluenviron/gohlslib/v2"
@@ -321,6 +323,35 @@ func runC10Case(seed int64, idx int) *c10Result {
 	}
 
 	srv := &origin.Server{H: site.Handler()}
+	if multi && (uint64(seed)*5+uint64(idx)*11)%9 == 0 && len(pls) > 0 {
+		// a slow origin for the leading playlist: the first media segment of the leading stream takes
+		// 2.6 s to arrive while the renditions are served at once; nothing may be lost for that
+		feats["slow-leading-segment"] = true
+		base := site.Handler()
+		leadPL := pls[0]
+		var once sync.Once
+		srv.H = func(req *http.Request, i int) origin.Response {
+			r := base(req, i)
+			key := origin.ResolveFull(leadPL.url, req.URL.String())
+			if j := strings.IndexByte(key, '?'); j >= 0 {
+				key = key[:j]
+			}
+			isSeg := false
+			for k := range leadPL.reqKey {
+				if strings.HasPrefix(k, key+"|") || strings.HasPrefix(k, req.URL.String()+"|") {
+					isSeg = true
+				}
+			}
+			if isSeg && r.Status == 200 {
+				once.Do(func() {
+					ch := make(chan struct{})
+					go func() { time.Sleep(2600 * time.Millisecond); close(ch) }()
+					r.Block = ch
+				})
+			}
+			return r
+		}
+	}
 	run := clirun.New(entry, srv.Client())
 	if err := run.C.Start(); err != nil {
 		fail("harness", "start: %v", err)
